@@ -14,8 +14,10 @@ import (
 	"sync"
 
 	"github.com/tmpim/casket"
+	casketerrors "github.com/tmpim/casket/caskethttp/errors"
 	"github.com/tmpim/casket/caskethttp/httpserver"
 	casketlog "github.com/tmpim/casket/caskethttp/log"
+	"github.com/tmpim/casket/casketfile"
 
 	"verifharness/hx"
 )
@@ -65,7 +67,7 @@ func c20ErrLen(status int) int {
 }
 
 func c20LogEval(f []string) (string, []string) {
-	if len(f) != 4 {
+	if len(f) != 5 {
 		return "bad-case", nil
 	}
 	dir, err := os.MkdirTemp("", "verif-c20-")
@@ -180,6 +182,29 @@ func c20LogEval(f []string) (string, []string) {
 			return "bad-case:errlens", nil
 		}
 	}
+	if f[4] == "errors" {
+		// the real `errors` directive between log and the handler (same controller, its own tokens)
+		ctrl.Dispenser = casketfile.NewDispenser("Testfile", strings.NewReader(fmt.Sprintf("errors %q\n", filepath.Join(dir, "errors.log"))))
+		setup, err := casket.DirectiveAction("http", "errors")
+		if err != nil {
+			return "setup-error:" + err.Error(), nil
+		}
+		if err := setup(ctrl); err != nil {
+			return "setup-error:" + err.Error(), nil
+		}
+		mids := cfg.Middleware()
+		eh, ok := mids[len(mids)-1](httpserver.EmptyNext).(*casketerrors.ErrorHandler)
+		if !ok {
+			return "setup-error:not an ErrorHandler", nil
+		}
+		c20StartMu.Lock()
+		err = eh.Log.Start()
+		c20StartMu.Unlock()
+		if err != nil {
+			return "setup-error:" + err.Error(), nil
+		}
+		defer eh.Log.Close()
+	}
 	cfg.AddMiddleware(func(next httpserver.Handler) httpserver.Handler { return probe })
 	srv, err := httpserver.NewServer("127.0.0.1:0", []*httpserver.SiteConfig{cfg})
 	if err != nil {
@@ -256,6 +281,9 @@ func c20LogEval(f []string) (string, []string) {
 	if strings.Contains(f[0], ":") {
 		tags = append(tags, "except")
 	}
+	if f[4] == "errors" {
+		tags = append(tags, "errors-directive-inside")
+	}
 	return strings.Join(per, ";") + "#" + strings.Join(clients, ","), tags
 }
 
@@ -275,7 +303,7 @@ func c20Outcome(s string) string {
 	return s
 }
 
-func c20LogCase(g *hx.Gen, dirs []string, conc bool, reqs []string) {
+func c20LogCase(g *hx.Gen, dirs []string, conc bool, reqs []string, wrap ...string) {
 	seen := map[int]bool{}
 	var el []string
 	add := func(st int) {
@@ -294,7 +322,11 @@ func c20LogCase(g *hx.Gen, dirs []string, conc bool, reqs []string) {
 	if conc {
 		c = "1"
 	}
-	g.Case(strings.Join(dirs, ","), c, strings.Join(reqs, ","), strings.Join(el, ","))
+	w := "-"
+	if len(wrap) > 0 {
+		w = wrap[0]
+	}
+	g.Case(strings.Join(dirs, ","), c, strings.Join(reqs, ","), strings.Join(el, ","), w)
 }
 
 func c20Dir(scope string, excepts ...string) string {
@@ -336,6 +368,7 @@ func c20LogGen(g *hx.Gen) {
 	for _, o := range c20Outcomes {
 		for _, p := range []string{"/a/x", "/zzz"} {
 			c20LogCase(g, []string{c20Dir("/a"), c20Dir("/a")}, false, []string{hx.HS(p) + ":" + c20Outcome(o)})
+			c20LogCase(g, []string{c20Dir("/a"), c20Dir("/a")}, false, []string{hx.HS(p) + ":" + c20Outcome(o)}, "errors")
 		}
 	}
 	c20LogCase(g, nil, false, allReqs())
@@ -374,7 +407,7 @@ func c20LogGen(g *hx.Gen) {
 			}
 			reqs = append(reqs, hx.HS(hx.Pick(g.Rng, c20Paths))+":"+c20Outcome(o))
 		}
-		c20LogCase(g, dirs, g.Rng.Chance(1, 2), reqs)
+		c20LogCase(g, dirs, g.Rng.Chance(1, 2), reqs, hx.Pick(g.Rng, []string{"-", "-", "errors"}))
 	}
 }
 
